@@ -215,6 +215,55 @@ func c20(c *Ctx) {
 	r.Counts["nonce_arguments"] = nNonce
 	r.Min("C20.nonce", 12)
 
+	// ---------------------------------------------------------------- alwaysdraw
+	// a function that draws its nonce/IV into the buffer it returns does so on every
+	// successful path: no success return hands that buffer back without the fill
+	// having run (an "empty message needs no key stream" shortcut would return an
+	// all-zero IV)
+	nDraw := 0
+	for _, f := range p.SortedFuncs(core.Product) {
+		if f.Synthetic != "" || f.Blocks == nil {
+			continue
+		}
+		res := f.Signature.Results()
+		if res.Len() == 0 || !core.IsByteSlice(res.At(0).Type()) {
+			continue
+		}
+		cx := bounds.NewCtx(f)
+		fills := randomFillsOf(cx, f)
+		if len(fills) == 0 {
+			continue
+		}
+		isProducer := c20Producer.MatchString(f.Name()) || f.Name() == "EncryptSegment" || f.Name() == "EncryptSegmentWithDst"
+		for _, fs := range fills {
+			returned := false
+			bad := ""
+			for _, ret := range guard.SuccessReturns(f) {
+				if len(ret.Results) == 0 || guard.IsNilConst(ret.Results[0]) {
+					continue
+				}
+				// the returned buffer carries the filled region, or the function is a producer
+				// whose single draw is its nonce
+				if regionOf(cx, ret.Results[0]).base != fs.reg.base && !(isProducer && len(fills) == 1) {
+					continue
+				}
+				returned = true
+				fb := fs.ins.Block()
+				if fb != ret.Block() && !fb.Dominates(ret.Block()) {
+					bad = p.Pos(ret.Pos())
+				}
+			}
+			if !returned {
+				continue
+			}
+			nDraw++
+			key := fmt.Sprintf("C20.alwaysdraw/%s/%s", core.FuncID(f), fs.src)
+			r.Check(bad == "", "C20.alwaysdraw", key, p.Pos(fs.ins.Pos()), "a successful path returns output without passing the function's random nonce/IV draw (return at "+bad+")", "the draw dominates every success return")
+		}
+	}
+	r.Counts["draw_into_result_sites"] = nDraw
+	r.Min("C20.alwaysdraw", 8)
+
 	c20Stream(c)
 	c20Ephemeral(c)
 	c20Sign(c)
